@@ -363,6 +363,25 @@ func c13ServerScenario(ss c13Session, mode string, lo, hi int) Scenario {
 			for _, ch := range []int{1, 2, 3, 4, 5, 7, 8, 11, 13, m - 1, m, m + 1, 8*m - 1, 8 * m, 8*m + 1, 4*m + 3} {
 				try(nil, ch, fmt.Sprintf("chunks of %d", ch))
 			}
+		case "frame-ends":
+			// large messages: a read ending shortly before / after the end of every frame,
+			// and bulk deliveries around 64 KiB
+			off := 0
+			for off+4 <= N {
+				sz := int(uint32(stream[off]) | uint32(stream[off+1])<<8 | uint32(stream[off+2])<<16 | uint32(stream[off+3])<<24)
+				if sz < 7 {
+					break
+				}
+				for a := off + sz - 30; a <= off+sz+8; a++ {
+					if a >= 1 && a < N {
+						try([]int{a}, 0, fmt.Sprintf("split at %d (%d bytes before the end of a %d-byte frame)", a, off+sz-a, sz))
+					}
+				}
+				off += sz
+			}
+			for _, ch := range []int{1000, 4096, 65535, 65536, 65537, int(ss.msize) - 1, int(ss.msize), 100000} {
+				try(nil, ch, fmt.Sprintf("chunks of %d", ch))
+			}
 		case "pairs":
 			// pairs of split points around every multiple of the receive buffer size
 			m := 8 * int(ss.msize)
@@ -390,7 +409,7 @@ func c13ServerScenario(ss c13Session, mode string, lo, hi int) Scenario {
 			}
 		}
 		res.Samples = append(res.Samples, map[string]any{"stream_bytes": N, "mode": mode, "requests": ss.nreq})
-		res.Bounds["D"] = map[string]int{"single": 1, "pairs": 2, "chunks": 0}[mode]
+		res.Bounds["D"] = map[string]int{"single": 1, "pairs": 2, "chunks": 0, "frame-ends": 1}[mode]
 		return res
 	}}
 }
@@ -400,6 +419,11 @@ func c13Scenarios(tier string) []Scenario {
 	sessions := []c13Session{{msize: 64, dotu: false, nreq: 40, gateEvery: 10, shift: -1}, {msize: 96, dotu: true, nreq: 30, gateEvery: 0, shift: 7}}
 	if tier == "thorough" {
 		sessions = append(sessions, c13Session{msize: 256, dotu: false, nreq: 60, gateEvery: 5, shift: -1}, c13Session{msize: 4096, dotu: true, nreq: 25, gateEvery: 5, shift: 100})
+	}
+	// messages larger than 64 KiB (msize 70000 and 1 MiB)
+	out = append(out, c13ServerScenario(c13Session{msize: 70000, dotu: true, nreq: 6, gateEvery: 0, shift: -1}, "frame-ends", 0, 0))
+	if tier == "thorough" {
+		out = append(out, c13ServerScenario(c13Session{msize: 1<<20 + 24, dotu: false, nreq: 6, gateEvery: 5, shift: -1}, "frame-ends", 0, 0))
 	}
 	for _, ss := range sessions {
 		step := 120
@@ -434,7 +458,7 @@ func c13Scenarios(tier string) []Scenario {
 func init() {
 	register(&Property{ID: "C13", Level: "model_checking",
 		Technique: "exhaustive enumeration of environment deviations (read segmentations) of the real receive loops under the controlled scheduler, differential against the unsegmented run",
-		Rule:      "server: a fixed stream of independent requests (tiny and msize-sized Twrites, reads, stats, walks; some writes parked while later bytes arrive) at msize 64/96 (thorough also 256/4096) so that the 8*msize receive buffer is exhausted and reallocated; every single split point (D=1), pairs of split points around every buffer-size multiple and the first frame boundaries (D=2), 16 fixed chunk sizes incl. 1 byte; every alignment of the frame boundaries against the receive buffer end (leading payload 0..msize-24) under bulk deliveries compared with the byte-at-a-time run; a Tversion (switching dialect and msize) followed by three attaches already in the dialect asked for, one read / every split / 8 chunk sizes against byte-at-a-time; client: a fixed reply stream to a real Clnt under every single split and chunk sizes. states = segmentations explored; each is one execution of the real code",
+		Rule:      "server: a fixed stream of independent requests (tiny and msize-sized Twrites, reads, stats, walks; some writes parked while later bytes arrive) at msize 64/96 (thorough also 256/4096), and messages above 64 KiB at msize 70000 (thorough also 1 MiB) cut around every frame end so that the 8*msize receive buffer is exhausted and reallocated; every single split point (D=1), pairs of split points around every buffer-size multiple and the first frame boundaries (D=2), 16 fixed chunk sizes incl. 1 byte; every alignment of the frame boundaries against the receive buffer end (leading payload 0..msize-24) under bulk deliveries compared with the byte-at-a-time run; a Tversion (switching dialect and msize) followed by three attaches already in the dialect asked for, one read / every split / 8 chunk sizes against byte-at-a-time; client: a fixed reply stream to a real Clnt under every single split and chunk sizes. states = segmentations explored; each is one execution of the real code",
 		Assumptions: []string{"requests in the explored stream are mutually independent (distinct tags and fids), so per-tag comparison is not perturbed by legitimate reordering", "default schedule for each segmentation (schedule exploration of the receive path belongs to C03/C09)"},
 		Scenarios:   c13Scenarios, QuickS: 100, ThoroughS: 1200})
 }
